@@ -42,10 +42,12 @@ META = {
     "rule": ("case = one generated offer graph: 2-6 uniquely named classes (flavours: plain "
              "single/multiple inheritance; ABCs with register; traits Interfaces with @provides; "
              "lazily imported string protocols; each either with step-counting metaclasses or "
-             "uninstrumented under a call-counting profiler), <= 8 offers of 13 kinds (always, "
-             "never, 6 chain-conditional, instrumented identity, register_provides, conditional "
+             "uninstrumented under a call-counting profiler), <= 8 offers of 12 kinds (always, "
+             "never, 5 chain-conditional, instrumented identity, register_provides, conditional "
              "identity, PurePythonAdapter / Adapter classes) laid out by a strategy (random, chain "
-             "with failing shortcut, offers from several ancestors, cycle), registered through "
+             "with refused / base-type shortcuts, offers from several ancestors, cycle; one graph "
+             "in ten belongs to the stratum 'a class providing several protocols, offers from "
+             "several of them to one target'), registered through "
              "register_offer / register_factory / register_provides. Every (source class, target "
              "class) pair is queried through adapt / adapt+default / supports_protocol / the global "
              "functions and through Supports, AdaptsTo, Instance(adapt=yes|default), List(Supports), "
@@ -56,18 +58,22 @@ META = {
              "than the trivial 'already provides' ones."),
     "phases": [{"name": "main", "flavour": "P", "shards": 16}],
     "gates": {
-        "quick": {"evaluations": 60000, "adapt_results_judged": 30000, "chains_found": 6000,
-                  "chains_len2plus": 1500, "chains_len3plus": 250, "failures_checked": 10000,
-                  "provides_checked": 5000, "specificity_checked": 600,
-                  "failing_candidate_pairs": 1000, "identity_in_min_path": 500,
-                  "trait_assignments": 15000, "trait_errors_expected": 3000,
-                  "shadow_checks": 2500, "cyclic_graph_failures": 1000},
-        "thorough": {"evaluations": 2500000, "adapt_results_judged": 1200000, "chains_found": 250000,
-                     "chains_len2plus": 60000, "chains_len3plus": 10000, "failures_checked": 400000,
-                     "provides_checked": 200000, "specificity_checked": 25000,
-                     "failing_candidate_pairs": 40000, "identity_in_min_path": 20000,
-                     "trait_assignments": 600000, "trait_errors_expected": 120000,
-                     "shadow_checks": 100000, "cyclic_graph_failures": 40000},
+        "quick": {"evaluations": 90000, "adapt_results_judged": 45000, "chains_found": 4500,
+                  "chains_len2plus": 750, "chains_len3plus": 110, "failures_checked": 6500,
+                  "provides_checked": 7500, "specificity_checked": 600,
+                  "specificity_checked_with_incomparable_sources": 110,
+                  "failing_candidate_pairs": 900, "identity_in_min_path": 1500,
+                  "trait_assignments": 45000, "trait_errors_expected": 15000,
+                  "shadow_checks": 7500, "cyclic_graph_failures": 4500,
+                  "graphs_uninstrumented_classes_profiled": 90, "offers_lazy_strings": 300},
+        "thorough": {"evaluations": 2700000, "adapt_results_judged": 1350000, "chains_found": 135000,
+                     "chains_len2plus": 22500, "chains_len3plus": 3300, "failures_checked": 195000,
+                     "provides_checked": 225000, "specificity_checked": 18000,
+                     "specificity_checked_with_incomparable_sources": 3300,
+                     "failing_candidate_pairs": 27000, "identity_in_min_path": 45000,
+                     "trait_assignments": 1350000, "trait_errors_expected": 450000,
+                     "shadow_checks": 225000, "cyclic_graph_failures": 135000,
+                     "graphs_uninstrumented_classes_profiled": 2700, "offers_lazy_strings": 9000},
     },
     "assumptions": [
         "issubclass is the 'provides' relation (as AdaptationManager.provides_protocol documents)",
@@ -75,6 +81,10 @@ META = {
         "prefix fails fails, and the model of the factories used by the enumeration is exact",
         "class names are unique within a case (offers are keyed by module.name by design)",
         "path length = number of offers used, null (register_provides) adapters included",
+        "the single-step specificity rule is judged only on hierarchies where issubclass is "
+        "transitive (it is not for a virtual subclass of an ABC that has a concrete non-ABC base)",
+        "step budgets are >= 20x what the search needs on the unchanged tree "
+        "(calls_using_over_5pct_of_step_budget stays 0)",
     ],
     "case_timeout": 120,
 }
@@ -308,7 +318,6 @@ def gen_classes(rng, tag, flavour, metas, modname, force_multi=False):
         # shape "one class, several protocols": P, Q(P), R [, Z] and a class X
         # that is a Q and an R (and a Z) -- by multiple inheritance in the
         # plain flavour, by register()/@provides in the others
-        n = max(n, 5)
         P = create((), "proto")
         Q = create((P,), "proto")
         R = create((), "proto")
@@ -322,6 +331,7 @@ def gen_classes(rng, tag, flavour, metas, modname, force_multi=False):
             keep = ups[:1] if rng.random() < 0.3 else []
             X = create(keep, "concrete")
             virtual_plan = [(c, X) for c in ups if c not in keep and X is not None]
+        n = max(n, len(classes) + 1)         # at least one class outside the shape (a target)
     while len(classes) < n:
         k = min(rng.choice((1, 1, 2, 2, 3, 4)), len(classes)) if rng.random() < dens else 0
         if create(rng.sample(classes, k), "any") is None:
@@ -385,7 +395,8 @@ def gen_offers(rng, classes, sub, nmax, force_specific=False):
     if force_specific:
         strategy = "specific"
     if strategy in ("chain", "mixed") and len(classes) >= 2:
-        perm = rng.sample(classes, rng.randint(2, min(6, len(classes))))
+        perm = rng.sample(classes, max(rng.randint(2, min(6, len(classes))),
+                                       rng.randint(2, min(6, len(classes)))))
         if rng.random() < 0.7:
             # prefer an order in which a step is not already given by inheritance
             for _ in range(6):
@@ -400,9 +411,22 @@ def gen_offers(rng, classes, sub, nmax, force_specific=False):
             i = rng.randrange(len(perm) - 2)
             add(perm[i], perm[rng.randrange(i + 2, len(perm))],
                 rng.choice(("never", "raw", "odd", "even", "notafter", "idraw", "always")))
+        if len(perm) >= 3 and rng.random() < 0.6:
+            # a shorter way that starts at a *base type* of a chain member
+            # (fewer offers, more steps up the hierarchy)
+            cands = [(i, a) for i in range(len(perm) - 2) for a in classes
+                     if a is not perm[i] and sub(perm[i], a) and not sub(a, perm[i])]
+            if cands:
+                i, a = min(rng.sample(cands, min(2, len(cands))), key=lambda x: x[0])
+                # land before the end of the chain when possible, so that the
+                # short way still needs further offers
+                j = rng.randrange(i + 2, max(i + 3, len(perm) - 1))
+                add(a, perm[j], rng.choice(("always", "always", "pyadapter", "provides")))
     if strategy in ("specific", "mixed"):
         s = max(classes, key=lambda c: (sum(1 for d in classes if sub(c, d)), rng.random()))
         anc = [d for d in classes if sub(s, d)]
+        if len(anc) > 3 and rng.random() < (0.7 if force_specific else 0.3):
+            anc.remove(s)                 # no offer for the class itself: its protocols compete
         t = rng.choice([d for d in classes if not sub(s, d)] or classes)
         for a in rng.sample(anc, min(len(anc), 5 if force_specific else rng.choice((2, 3, 3, 4, 5)))):
             add(a, t, rng.choice(("always", "always", "always", "always", "pyadapter", "raw",
@@ -479,11 +503,12 @@ def enumerate_chains(src, offers, sub):
 
 class Expect:
     __slots__ = ("status", "L", "minset", "allset", "singles", "nmin", "ident_in_min",
-                 "failing_candidate", "spec_relevant", "order_class")
+                 "failing_candidate", "spec_relevant", "order_class", "spec_not_judged")
 
 
-def analyse(src, tgt, offers, succ, fail, sub):
+def analyse(src, tgt, offers, succ, fail, sub, transitive=True):
     e = Expect()
+    e.spec_not_judged = False
     e.L = 0
     e.minset = e.allset = frozenset()
     e.singles = []
@@ -510,6 +535,12 @@ def analyse(src, tgt, offers, succ, fail, sub):
         e.singles = [offers[seq[0]] for seq, chain in mins]
         e.spec_relevant = any(a is not b and sub(a.frm, b.frm) and not sub(b.frm, a.frm)
                               for a in e.singles for b in e.singles)
+        if e.spec_relevant and not transitive:
+            # "more specific type" / "its base type" presuppose an order; when
+            # issubclass is not transitive on this hierarchy (a virtual subclass
+            # of an ABC that has a concrete non-ABC base) the rule is not judged
+            e.spec_relevant = False
+            e.spec_not_judged = True
         if e.spec_relevant:
             froms = []
             for o in offers:
@@ -539,9 +570,13 @@ def describe(res, obj):
     return ("other", short(res))
 
 
+INFO = {"extra_adapter_objects": 0, "last": None}
+
+
 def judge_success(e, d, offers, sub):
     """Complaint (or None) about description d of a value returned/stored when
     the enumeration says status is 'provides' or 'chain'."""
+    INFO["last"] = d
     if e.status == "provides":
         return None if d[0] == "obj" else "provides-but-not-returned-unchanged"
     if d[0] not in ("obj", "ad"):
@@ -551,6 +586,10 @@ def judge_success(e, d, offers, sub):
         return "result-is-not-a-successful-chain"
     if ch not in e.minset:
         return "chain-not-minimal"
+    # informational only (see module docstring): adapter *objects* in the
+    # result beyond the fewest any successful sequence would have created;
+    # non-zero only when null adapters make a sequence of more offers cheaper
+    INFO["extra_adapter_objects"] = len(ch) - min(len(c) for c in e.allset)
     if e.L == 1 and e.spec_relevant:
         cands = [o for o in e.singles if o.model(()) == ch]
         if cands and all(any(o2 is not c and sub(o2.frm, c.frm) and not sub(c.frm, o2.frm)
@@ -698,14 +737,14 @@ def check_trait_route(route, h, ti, obj, e, offers, sub, limit, profiled, ctx):
 
 # --------------------------------------------------------------------------
 FLAVOURS = ("plain", "plain", "abc", "abc", "abc", "iface", "iface", "lazy")
-PATH_CAP = 1500
+PATH_CAP = 800
 
 
 def run_case(ctx, gi):
     rng = ctx.rng("graph", gi)
-    # own stratum (1 graph in 16) for the shape "a class providing several
+    # own stratum (1 graph in 10) for the shape "a class providing several
     # protocols, offers from several of them to one target"
-    spec_stratum = gi % 16 == 5
+    spec_stratum = gi % 10 == 5
     flavour = rng.choice(FLAVOURS)
     profiled = rng.random() < 0.12
     metas = RAW_METAS if profiled else COUNTED_METAS
@@ -732,6 +771,10 @@ def run_case(ctx, gi):
                 r = cache[k] = bool(issubclass(a, b))
             return r
 
+        transitive = all(sub(a, c) for a in classes for b in classes if sub(a, b)
+                         for c in classes if sub(b, c))
+        if not transitive:
+            ctx.count("graphs_with_nontransitive_issubclass")
         offers, strategy = gen_offers(rng, classes, sub, rng.choice((3, 5, 6, 7, 8, 8)), spec_stratum)
         finish_offers(rng, offers)
         # keep the search space small enough to enumerate (and to bound the
@@ -780,8 +823,13 @@ def run_case(ctx, gi):
                             if a is not b and sub(a, b) and b not in a.__mro__],
                 "offers": [o.spec() for o in offers]}
         ctx.count("graphs")
-        if gi < 4 * ctx.nshards and gi % ctx.nshards == ctx.shard and offers:
-            ctx.sample(desc)
+        ctx.count("graphs_flavour_" + flavour)
+        if profiled:
+            ctx.count("graphs_uninstrumented_classes_profiled")
+        ctx.count("offers_registered", len(offers))
+        ctx.count("offers_lazy_strings", sum(1 for o in offers if o.how == "lazy"))
+        ctx.count("virtual_subclass_registrations", nreg)
+        sample_queries = []
         cyclic = any(a is not b and sub(a.to, b.frm) and sub(b.to, a.frm) for a in offers
                      for b in offers) or any(sub(a.to, a.frm) for a in offers)
         for src in classes:
@@ -792,12 +840,16 @@ def run_case(ctx, gi):
                 continue
             succ, fail = enumerate_chains(src, offers, sub)
             np_ = npaths[src]
-            # generous budget: >= 20x what the healthy search needs (calibrated
-            # on the counters max_steps_per_path_*), proportional to the number
-            # of simple applicable sequences a complete search has to visit
-            limit = (60000 + 30000 * np_) if profiled else (20000 + 6000 * np_)
+            # generous budget, proportional to the number of simple applicable
+            # sequences a complete search has to visit.  Calibration on the
+            # healthy tree: at most 14 counted subclass checks / 46 profiled
+            # calls per such sequence, i.e. >= 100x headroom (the counter
+            # calls_using_over_5pct_of_step_budget stays 0)
+            limit = (20000 + 5000 * np_) if profiled else (5000 + 1500 * np_)
             for ti, tgt in enumerate(classes):
-                e = analyse(src, tgt, offers, succ, fail, sub)
+                e = analyse(src, tgt, offers, succ, fail, sub, transitive)
+                if e.spec_not_judged:
+                    ctx.count("specificity_not_judged_nontransitive_issubclass")
                 routes = [("m", "adapt"), ("m", rng.choice(MANAGER_ROUTES[1:4]))]
                 routes += [("m", r) for r in rng.sample(MANAGER_ROUTES[4:], 1)]
                 routes += [("t", r) for r in rng.sample(TRAIT_ROUTES, 3)]
@@ -823,21 +875,27 @@ def run_case(ctx, gi):
                 if e.failing_candidate:
                     ctx.count("failing_candidate_pairs")
                 ctx.count("pairs_min_offers_%d" % min(e.L, 6))
+                if e.status == "chain" and len(sample_queries) < 3 and (e.L > 1 or e.failing_candidate):
+                    sample_queries.append({"source": src.__name__, "target": tgt.__name__,
+                                           "min_offers": e.L, "admissible_visible_chains": sorted(e.minset),
+                                           "successful_sequences": len(e.allset)})
                 for layer, route in routes:
+                    INFO["last"] = None
                     if layer == "m":
+                        INFO["extra_adapter_objects"] = 0
                         c, oc = check_manager_route(route, m, obj, tgt, e, offers, sub, limit, profiled)
                         ctx.count("adapt_results_judged")
+                        if route == "adapt" and c is None and INFO["extra_adapter_objects"] > 0:
+                            ctx.count("info_min_offers_result_has_more_adapter_objects_than_a_longer_"
+                                      "sequence_through_null_adapters")
                     else:
                         c, oc = check_trait_route(route, h, ti, obj, e, offers, sub, limit, profiled, ctx)
                         ctx.count("trait_assignments")
                         if oc == "TraitError":
                             ctx.count("trait_errors_expected" if c is None else "trait_errors_unexpected")
                     ctx.ev()
-                    if np_:
-                        key = "max_steps_per_path_profiled" if profiled else "max_steps_per_path_counted"
-                        r = ST.n // (np_ + 1)
-                        if r > ctx.counters.get(key, 0):
-                            ctx.counters[key] = r
+                    if ST.n * 20 > limit:
+                        ctx.count("calls_using_over_5pct_of_step_budget")
                     if e.status != "provides" or c:
                         ctx.sig(flavour, route, e.status, min(e.L, 5),
                                 min(len(next(iter(e.minset))), 5) if e.minset else -1,
@@ -852,14 +910,19 @@ def run_case(ctx, gi):
                         ctx.violation(
                             key,
                             "%s via %s: adapting an instance of %s to %s: expected status=%s min offers=%d "
-                            "admissible visible chains=%s; outcome class=%s; offers=%s; classes=%s; virtual=%s"
+                            "admissible visible chains=%s; outcome class=%s observed=%s; offers=%s; classes=%s; "
+                            "virtual=%s"
                             % (c, route, src.__name__, tgt.__name__, e.status, e.L,
-                               sorted(e.minset)[:6], oc, desc["offers"], desc["classes"], desc["virtual"]),
+                               sorted(e.minset)[:6], oc, INFO["last"], desc["offers"], desc["classes"],
+                               desc["virtual"]),
                             dict(desc, source=src.__name__, target=tgt.__name__, route=route,
-                                 status=e.status, min_offers=e.L, admissible=sorted(e.minset)[:10]))
+                                 status=e.status, min_offers=e.L, admissible=sorted(e.minset)[:10],
+                                 observed=INFO["last"]))
                         if c.startswith("nontermination"):
                             return
                         break            # this pair's history stops at its first violation
+        if sample_queries and len(ctx.samples) < 4:
+            ctx.sample(dict(desc, queries=sample_queries))
     finally:
         set_global_adaptation_manager(prev_manager)
         if modname is not None:
